@@ -8,7 +8,7 @@ git -C /repo apply $P
 if [ -n "$B" ]; then export VERIF_BUDGET_S=$B; fi
 ./check $PROP --tier quick > /verif/seeded/$ID/check-$PROP.out 2>&1
 RC=$?
-mkdir -p /verif/seeded/$ID/replays && rm -f /verif/seeded/$ID/replays/*.json
+mkdir -p /verif/seeded/$ID/replays
 for f in $(grep '^VIOLATION' /verif/seeded/$ID/check-$PROP.out | sed 's/.*replay=//'); do cp $f /verif/seeded/$ID/replays/ 2>/dev/null; done
 git -C /repo checkout -- . 
 echo "TRY id=$ID prop=$PROP exit=$RC $(grep -c '^VIOLATION' /verif/seeded/$ID/check-$PROP.out) violation line(s)"
